@@ -67,7 +67,7 @@ PAINTERS_ND = [("static", {"mode": "objective function", "indx": 0}), ("static",
 
 def cases(tier, seed):
     out = []
-    reps = 1 if tier == "quick" else 10
+    reps = 1 if tier == "quick" else 40
     idx = 0
     for rep in range(reps):
         for N in (1, 2, 3):
